@@ -21,10 +21,14 @@ def draw_nets(rng, kind=None, max_workers=4):
     if kind == "serial":
         return "net0", kind
     if kind == "lxc":
-        return " ".join(sorted(rng.sample(LXC, rng.randint(1, max_workers)))), kind
-    if kind == "remote":
-        return " ".join(sorted(rng.sample(CLUSTER, rng.randint(2, max_workers)))), kind
-    return " ".join(sorted(rng.sample(LXC[:2] + LXC[3:4], rng.randint(1, 2))) + sorted(rng.sample(CLUSTER, rng.randint(1, 2)))), kind
+        chosen = rng.sample(LXC, rng.randint(1, max_workers))
+    elif kind == "remote":
+        chosen = rng.sample(CLUSTER, rng.randint(2, max_workers))
+    else:
+        return " ".join(sorted(rng.sample(LXC[:2] + LXC[3:4], rng.randint(1, 2))) + sorted(rng.sample(CLUSTER, rng.randint(1, 2)))), kind
+    # the order in which the workers are named matters (the first one's restrictions shape the up-front graph): mostly sorted,
+    # sometimes as drawn (e.g. a restricted worker like net5 or net3 first)
+    return " ".join(chosen if rng.random() < 0.35 else sorted(chosen)), kind
 
 
 def object_ids(spec, vm_strs):
